@@ -4,6 +4,7 @@ import LhasaV.Lemmas.StreamProps
 import LhasaV.Lemmas.ReaderIndep
 import LhasaV.Lemmas.ReaderWorkTotal
 import LhasaV.Lemmas.ReaderWorkPresent
+import LhasaV.Lemmas.ToolKinds
 /-!
 # C13 — every call returns; work and heap are bounded by bytes present and declared size
 
@@ -162,5 +163,15 @@ theorem next_work_present (st : Stream.St) (pol : DirPolicy) (mk : Nat → Nat)
 
 /-- every decoder of the method table keeps its source position within the data present -/
 theorem decoders_present : ReaderPresent.PresentAll := ReaderPresent.presentAll
+
+/-- **The loops of the tool never run out of fuel.** The tool models are total functions with a
+fuel argument (`2·|archive| + 16` rounds; `|archive| + 2` for the listing walk); for EVERY archive,
+kind of source, options, file system and answers each loop (`lha x/e`, `p`, `t`, the listing walk)
+is left through the end of the archive, `exit(-1)` or a parser fault WITHIN that fuel: every entry
+`next` presents lowers `2·(bytes to come) + directories to re-present + deferred links`. So the
+fuel is not a modelling artefact that could hide a non-terminating loop. -/
+theorem tool_loops_end_in_fuel (k : Stream.Kind) (A : Array UInt8) (o : Extract.Opts) (fs : Fs.St)
+    (answers : Bytes) (cmd : Messages.Cmd) : ToolKinds.EndsInFuel k A o fs answers cmd :=
+  ToolKinds.ends_in_fuel k A o fs answers cmd
 
 end LhasaV.Props.C13
